@@ -361,9 +361,11 @@ func checkC05(e *worlds.Env, cfg *c02cfg, m *worlds.ConnModel, hist []worlds.Mat
 	if ended < deadline && clientStays {
 		prev := -1
 		for _, c := range calls {
-			if strings.HasPrefix(c.Handler, "R:"+lid+"/") {
-				ri, _ := strconv.Atoi(c.Handler[strings.LastIndex(c.Handler, "/")+1:])
-				prev = ri
+			// "R:<list>/<route index>": marks of nested lists ("R:L/1s/0") share the prefix
+			if rest, ok := strings.CutPrefix(c.Handler, "R:"+lid+"/"); ok && !strings.Contains(rest, "/") {
+				if ri, err := strconv.Atoi(rest); err == nil {
+					prev = ri
+				}
 			}
 		}
 		off := m.Consumed
